@@ -24,6 +24,8 @@ func main() {
 	evDir := flag.String("evidence", "/verif/evidence", "evidence directory")
 	knownPath := flag.String("known", "/verif/known_findings.json", "known findings file")
 	fixtures := flag.String("fixtures", "/verif/checker/testdata", "fixture module root")
+	anchors := flag.String("anchors", "/verif/anchors.json", "reference table of unexported function fingerprints (rename resolution)")
+	writeAnch := flag.Bool("write-anchors", false, "write the reference table from the current tree and exit")
 	flag.Parse()
 	seed, _ := strconv.ParseInt(os.Getenv("VERIF_SEED"), 10, 64)
 
@@ -52,6 +54,18 @@ func main() {
 			fmt.Printf("UNDECIDED property=%s cannot load/type-check %s: %v\n", id, *repo, err)
 		}
 		os.Exit(2)
+	}
+	if *writeAnch {
+		if err := writeAnchors(base, *anchors); err != nil {
+			fmt.Println("cannot write anchors:", err)
+			os.Exit(2)
+		}
+		fmt.Println("wrote", *anchors)
+		return
+	}
+	base.resolveRenames(*anchors)
+	for _, n := range base.RenameNotes {
+		fmt.Println("NOTE", n)
 	}
 	fixErr := runFixtures(*fixtures)
 	worst := 0
